@@ -84,6 +84,25 @@ Proof.
 Qed.
 Print Assumptions C11_failed_registration_changes_nothing.
 
+(* when a registration is accepted (rules.go addRule's duplicate check, in either registration order):
+   exactly when it is [unobstructed] by the bindings of the published map -- every key valid, and no key
+   meets (same node; same verb, or "*" on either side) a key of a different method, in the map or in the
+   registration itself.  Bindings are taken from the map, not from the descriptors of the live table: a
+   method's rules stand until its last handler goes (RegistryProofs.unobstructed_live_table_insufficient). *)
+Theorem C11_accepted_iff_unobstructed : forall h l ds,
+  snd (step (run h) (RegLocal l ds)) = ROk <->
+  unobstructed_in (trie_keys (spath (clone (published (run h))))) ds = true.
+Proof. exact reglocal_ok_iff. Qed.
+Print Assumptions C11_accepted_iff_unobstructed.
+
+(* in every published map keys are keys, and bindings that meet belong to one method *)
+Theorem C11_published_bindings_consistent : forall h,
+  let t := spath (clone (published (run h))) in
+  NoDup (map fst t) /\
+  forall e1 e2, In e1 t -> In e2 t -> key_meets (entry_key e1) (entry_key e2) = true -> snd e1 = snd e2.
+Proof. exact run_wf. Qed.
+Print Assumptions C11_published_bindings_consistent.
+
 (* ---- the hypotheses are satisfiable, the statements are not vacuous ---- *)
 Definition kA := BKey 11 1 true.
 Definition mA1 := MDesc 1 1 [Rule kA []].
@@ -174,3 +193,70 @@ Theorem C11_lifecycle_no_dead_nodes : forall isLetter isNumber resolves body_ok 
   alive n = true /\ HasB n.
 Proof. exact lifecycle_no_dead. Qed.
 Print Assumptions C11_lifecycle_no_dead_nodes.
+
+(* ---- the abstract routing map of the theorems above is what the concrete trie holds (Proofs/RefineProofs.v) ----
+   The registry model above keeps the routes as a finite map from binding keys (node, verb) to method names. The
+   concrete trie of larking/rules.go (Model/Trie.v: nodes, literal / variable children, per-verb bindings and the
+   '*' binding; Model/TrieDel.v: delRule) refines it: reading the trie through `Abs` (a key names a node by its edge
+   path up to the spelling of patterns; the map's value is the method stored there under that verb) commutes with
+   every operation. Spec/AbsTrie.v states the map operations generically over the key type; Registry.t_find, t_lookup,
+   t_add, t_del, ... are its instance at nat (AbsTrie.RegistryInstance, by reflexivity). *)
+From Larking Require Import Model.Trie Model.TrieDel Spec.AbsTrie Proofs.DelProofs Proofs.RefineProofs.
+
+(* one registration of a service (all or nothing) on related states: same verdict, related results *)
+Theorem C11_trie_refines_registration :
+  forall isLetter isNumber resolves body_ok resp_ok root t ds,
+  Good isLetter isNumber resolves root -> Abs root t ->
+  Good isLetter isNumber resolves (fst (Trie.register_service resolves body_ok resp_ok isLetter isNumber root ds)) /\
+  Abs (fst (Trie.register_service resolves body_ok resp_ok isLetter isNumber root ds))
+      (c_register_service t (List.map (abs_decl isLetter isNumber resolves body_ok resp_ok) ds)) /\
+  snd (Trie.register_service resolves body_ok resp_ok isLetter isNumber root ds) =
+  is_ok (c_register t (List.map (abs_decl isLetter isNumber resolves body_ok resp_ok) ds)).
+Proof. exact refine_service. Qed.
+Print Assumptions C11_trie_refines_registration.
+
+(* removal of a method's routes on related states *)
+Theorem C11_trie_refines_removal : forall isLetter isNumber resolves name root t,
+  Good isLetter isNumber resolves root -> Abs root t -> Abs (TrieDel.remove_method name root) (c_del t name).
+Proof. exact refine_del. Qed.
+Print Assumptions C11_trie_refines_removal.
+
+(* every history of registrations (failing ones included) and removals: the states stay related and every operation
+   returns the same verdict on both sides *)
+Theorem C11_trie_refines_history : forall isLetter isNumber resolves body_ok resp_ok ops root t,
+  Good isLetter isNumber resolves root -> Abs root t ->
+  Good isLetter isNumber resolves (DelProofs.run_ops isLetter isNumber resolves body_ok resp_ok root ops) /\
+  Abs (DelProofs.run_ops isLetter isNumber resolves body_ok resp_ok root ops) (arun isLetter isNumber resolves body_ok resp_ok t ops) /\
+  ctrace isLetter isNumber resolves body_ok resp_ok root ops = atrace isLetter isNumber resolves body_ok resp_ok t ops.
+Proof. exact refine_history_exact. Qed.
+Print Assumptions C11_trie_refines_history.
+
+(* from the empty mux: which method a key is bound to in the abstract map is exactly what the trie stores there ... *)
+Theorem C11_published_map_is_trie_content : forall isLetter isNumber resolves body_ok resp_ok ops es v mid,
+  (c_find (arun isLetter isNumber resolves body_ok resp_ok nil ops) (TrieProofs.keys es) v = Some mid <->
+   exists i m, TrieProofs.info_at (DelProofs.run_ops isLetter isNumber resolves body_ok resp_ok Trie.empty_node ops) es = Some i /\
+               TrieProofs.stored i v m /\ Trie.m_id m = mid).
+Proof. exact refine_published_exact. Qed.
+Print Assumptions C11_published_map_is_trie_content.
+
+(* ... and a request the trie routes is served by the method the abstract map binds (own verb, else '*') at the node
+   the request's path is matched to *)
+Theorem C11_routed_method_is_map_binding : forall isLetter isNumber resolves okconv root t verb p m caps,
+  Good isLetter isNumber resolves root -> AbsR root t ->
+  Match.route okconv isLetter isNumber root verb p = Ok (m, caps) ->
+  exists es toks, Lexer.lex_path isLetter isNumber (Match.normalise p) = Ok toks /\ Route.MatchEdges es toks caps /\
+                  c_lookup t (TrieProofs.keys es) verb = Some (Trie.m_id m).
+Proof. exact refine_route. Qed.
+Print Assumptions C11_routed_method_is_map_binding.
+
+(* the record of what the refinement proof found wrong in the first registry model (kept checked): the old duplicate
+   check (AbsTrie.a_add_loose) accepted a '*' binding at a node where another method holds a verb binding, which
+   rules.go refuses, and answered "already registered" for a verb binding below the method's own '*', which rules.go
+   stores. Neither situation occurred in the catalogue of the correspondence run; both do now (harness/c11.go). *)
+Theorem C11_first_registry_model_refuted :
+  a_add_loose nat nat nat Nat.eqb Nat.eqb Nat.eqb 0 [(1, 1, 1)] (AKey 1 0 true) 2 = Ok ([(1, 0, 2); (1, 1, 1)], true) /\
+  Registry.t_add [(1, 1, 1)] (BKey 1 0 true) 2 = Err EInvalid /\
+  a_add_loose nat nat nat Nat.eqb Nat.eqb Nat.eqb 0 [(1, 0, 1)] (AKey 1 1 true) 1 = Ok ([(1, 0, 1)], false) /\
+  Registry.t_add [(1, 0, 1)] (BKey 1 1 true) 1 = Ok ([(1, 1, 1); (1, 0, 1)], true).
+Proof. vm_compute. repeat split. Qed.
+Print Assumptions C11_first_registry_model_refuted.
